@@ -86,11 +86,61 @@ func TestVerifC07(t *testing.T) {
 // diagnostics of the other files must not change at all. Workspaces come from $VERIF_C07_SHIFT_IN.
 
 type shiftWS struct {
-	Name   string            `json:"name"`
-	Files  map[string]string `json:"files"`  // path relative to the workspace root -> content
-	Config string            `json:"config"` // YAML user config, "" = none
-	Ks     []int             `json:"ks"`
-	Edit   []string          `json:"edit"` // files to edit, in this order (default: all, sorted)
+	Name     string            `json:"name"`
+	Files    map[string]string `json:"files"`     // path relative to the workspace root -> content
+	Config   string            `json:"config"`    // YAML user config, "" = none
+	Ks       []int             `json:"ks"`        // k blank lines inserted at the TOP of the file
+	Edit     []string          `json:"edit"`      // files to edit, in this order (default: all, sorted)
+	Cuts     map[string][]int  `json:"cuts"`      // per file: 0-based line indices that start a top-level chunk (after a blank line)
+	MidKs    []int             `json:"mid_ks"`    // k blank lines inserted before each of the file's cuts
+	MidCross bool              `json:"mid_cross"` // every k at every cut (else the k values rotate over the cuts)
+	TailKs   []int             `json:"tail_ks"`   // k blank lines appended at the end of the file
+}
+
+// shiftEditSpec: one layout-only edit of a file: k blank lines at the top, before line Row ("mid"), or at the end ("tail")
+type shiftEditSpec struct {
+	Kind string `json:"kind"`
+	Row  int    `json:"row"`
+	K    int    `json:"k"`
+}
+
+func (e shiftEditSpec) String() string {
+	switch e.Kind {
+	case "mid":
+		return fmt.Sprintf("%d blank lines before line %d", e.K, e.Row+1)
+	case "tail":
+		return fmt.Sprintf("%d blank lines at the end", e.K)
+	}
+	return fmt.Sprintf("%d blank lines at the top", e.K)
+}
+
+func (e shiftEditSpec) apply(text string) string {
+	switch e.Kind {
+	case "mid":
+		lines := strings.Split(text, "\n")
+		if e.Row < 0 || e.Row > len(lines) {
+			return text
+		}
+		out := append([]string{}, lines[:e.Row]...)
+		for i := 0; i < e.K; i++ {
+			out = append(out, "")
+		}
+		return strings.Join(append(out, lines[e.Row:]...), "\n")
+	case "tail":
+		return text + strings.Repeat("\n", e.K)
+	}
+	return strings.Repeat("\n", e.K) + text
+}
+
+// first 0-based line that moves
+func (e shiftEditSpec) from() (uint, bool) {
+	switch e.Kind {
+	case "mid":
+		return uint(e.Row), true
+	case "tail":
+		return 0, false
+	}
+	return 0, true
 }
 
 type shiftDiag struct {
@@ -105,6 +155,8 @@ type shiftIssue struct {
 	Kind     string            `json:"kind"` // missing-after-edit | extra-after-edit | other-file-changed | outside-file | error
 	File     string            `json:"file"`
 	K        int               `json:"k"`
+	Edit     shiftEditSpec     `json:"edit"`
+	EditText string            `json:"edit_text"`
 	Diag     *shiftDiag        `json:"diag,omitempty"`
 	Other    string            `json:"other,omitempty"`
 	Err      string            `json:"err,omitempty"`
@@ -117,14 +169,16 @@ type shiftIssue struct {
 }
 
 type shiftResult struct {
-	Name      string                 `json:"name"`
-	Skipped   string                 `json:"skipped,omitempty"`
-	Baseline  map[string][]shiftDiag `json:"baseline"`
-	Edits     int                    `json:"edits"`
-	Compared  int                    `json:"compared"` // (diagnostic, edit) pairs
-	ByCode    map[string]int         `json:"by_code"`
-	Aggregate []string               `json:"aggregate_rules"`
-	Issues    []shiftIssue           `json:"issues"`
+	Name        string                 `json:"name"`
+	Skipped     string                 `json:"skipped,omitempty"`
+	Baseline    map[string][]shiftDiag `json:"baseline"`
+	Edits       int                    `json:"edits"`
+	EditsByKind map[string]int         `json:"edits_by_kind"`
+	CommentFree []string               `json:"comment_free_files"` // files without any comment (their re-parsed module differs from the cached one in locations only)
+	Compared    int                    `json:"compared"`           // (diagnostic, edit) pairs
+	ByCode      map[string]int         `json:"by_code"`
+	Aggregate   []string               `json:"aggregate_rules"`
+	Issues      []shiftIssue           `json:"issues"`
 }
 
 const shiftRoot = "file:///ws"
@@ -150,19 +204,29 @@ func shiftSnapshot(c *cache.Cache, uri string) []shiftDiag {
 	return res
 }
 
-func shiftMoved(ds []shiftDiag, k int) []shiftDiag {
+// shiftMoved: where the diagnostics have to be after the edit: every line at or below the insertion point moves by k
+// (start and end separately: a range that begins above and ends below grows), those above stay
+func shiftMoved(ds []shiftDiag, e shiftEditSpec) []shiftDiag {
+	from, moves := e.from()
+	k := uint(e.K)
 	res := make([]shiftDiag, len(ds))
 	for i, d := range ds {
-		d.Range[0] += uint(k)
-		d.Range[2] += uint(k)
-		if shiftDescQuotesRows[d.Code] {
-			d.Message = shiftDecRE.ReplaceAllStringFunc(d.Message, func(s string) string {
-				n, err := strconv.Atoi(s)
-				if err != nil {
-					return s
-				}
-				return strconv.Itoa(n + k)
-			})
+		if moves {
+			if d.Range[0] >= from {
+				d.Range[0] += k
+			}
+			if d.Range[2] >= from {
+				d.Range[2] += k
+			}
+			if shiftDescQuotesRows[d.Code] {
+				d.Message = shiftDecRE.ReplaceAllStringFunc(d.Message, func(s string) string {
+					n, err := strconv.Atoi(s)
+					if err != nil || n < 1 || uint(n-1) < from { // the message quotes 1-based rows
+						return s
+					}
+					return strconv.Itoa(n + e.K)
+				})
+			}
 		}
 		res[i] = d
 	}
@@ -260,7 +324,7 @@ func (s *shiftSession) shiftEdit(ctx context.Context, name, content string) (str
 
 // shiftCheckEdit runs load + ONE edit on a fresh cache and returns the issues of that edit
 // (used for minimisation; the main loop chains the edits on one cache like a real session)
-func shiftCheckOne(ctx context.Context, files map[string]string, cfg, name string, k int) []shiftIssue {
+func shiftCheckOne(ctx context.Context, files map[string]string, cfg, name string, e shiftEditSpec) []shiftIssue {
 	s, skip, err := shiftLoad(ctx, files, cfg)
 	if err != nil || skip != "" {
 		return nil
@@ -270,18 +334,23 @@ func shiftCheckOne(ctx context.Context, files map[string]string, cfg, name strin
 		base[n] = shiftSnapshot(s.c, shiftRoot+"/"+n)
 	}
 	base[""] = shiftSnapshot(s.c, shiftRoot)
-	skip, err = s.shiftEdit(ctx, name, strings.Repeat("\n", k)+files[name])
+	skip, err = s.shiftEdit(ctx, name, e.apply(files[name]))
 	if err != nil || skip != "" {
 		return nil
 	}
-	return shiftCompare(s, files, base, name, k)
+	return shiftCompare(s, files, base, name, e)
 }
 
-func shiftCompare(s *shiftSession, files map[string]string, base map[string][]shiftDiag, name string, k int) []shiftIssue {
-	var res []shiftIssue
+func shiftCompare(s *shiftSession, files map[string]string, base map[string][]shiftDiag, name string, e shiftEditSpec) (res []shiftIssue) {
+	k := e.K
+	defer func() {
+		for i := range res {
+			res[i].Edit, res[i].EditText = e, e.String()
+		}
+	}()
 	uri := shiftRoot + "/" + name
 	after := shiftSnapshot(s.c, uri)
-	want := shiftMoved(base[name], k)
+	want := shiftMoved(base[name], e)
 	for _, d := range shiftMinus(want, after) {
 		d := d
 		res = append(res, shiftIssue{Kind: "missing-after-edit", File: name, K: k, Diag: &d, Before: base[name], After: after})
@@ -323,7 +392,7 @@ func shiftCompare(s *shiftSession, files map[string]string, base map[string][]sh
 
 func shiftSameIssue(a shiftIssue, bs []shiftIssue) bool {
 	for _, b := range bs {
-		if a.Kind == b.Kind && a.File == b.File && a.Other == b.Other && a.Diag != nil && b.Diag != nil && a.Diag.Code == b.Diag.Code {
+		if a.Kind == b.Kind && a.File == b.File && a.Other == b.Other && a.Diag != nil && b.Diag != nil && a.Diag.Code == b.Diag.Code && a.Edit.Kind == b.Edit.Kind {
 			return true
 		}
 	}
@@ -338,12 +407,13 @@ func shiftMinimise(ctx context.Context, is shiftIssue, files map[string]string, 
 		cur[n] = t
 	}
 	attempts := 0
+	edit := is.Edit
 	holds := func(fs map[string]string) bool {
 		if attempts >= budget {
 			return false
 		}
 		attempts++
-		return shiftSameIssue(is, shiftCheckOne(ctx, fs, cfg, is.File, is.K))
+		return shiftSameIssue(is, shiftCheckOne(ctx, fs, cfg, is.File, edit))
 	}
 	if !holds(cur) {
 		// needs the history of earlier edits of the session: reported as found
@@ -379,6 +449,18 @@ func shiftMinimise(ctx context.Context, is shiftIssue, files map[string]string, 
 		lines := strings.Split(cur[n], "\n")
 		for chunk := len(lines) / 2; chunk >= 1; chunk /= 2 {
 			for i := 0; i+chunk <= len(lines); {
+				saved := edit
+				if n == is.File && edit.Kind == "mid" {
+					// the insertion point stays between the same two lines (a blank line and the start of a chunk)
+					switch {
+					case i+chunk <= edit.Row-1:
+						edit.Row -= chunk
+					case i > edit.Row:
+					default:
+						i += chunk
+						continue
+					}
+				}
 				cl := append(append([]string{}, lines[:i]...), lines[i+chunk:]...)
 				cand := map[string]string{}
 				for m, t := range cur {
@@ -389,12 +471,13 @@ func shiftMinimise(ctx context.Context, is shiftIssue, files map[string]string, 
 					lines = cl
 					cur = cand
 				} else {
+					edit = saved
 					i += chunk
 				}
 			}
 		}
 	}
-	for _, j := range shiftCheckOne(ctx, cur, cfg, is.File, is.K) {
+	for _, j := range shiftCheckOne(ctx, cur, cfg, is.File, edit) {
 		if shiftSameIssue(is, []shiftIssue{j}) {
 			j.Files, j.Config, j.Minimal, j.Attempts = cur, cfg, true, attempts
 			return j
@@ -405,7 +488,13 @@ func shiftMinimise(ctx context.Context, is shiftIssue, files map[string]string, 
 }
 
 func shiftRunWS(ctx context.Context, ws shiftWS) shiftResult {
-	res := shiftResult{Name: ws.Name, Baseline: map[string][]shiftDiag{}, ByCode: map[string]int{}}
+	res := shiftResult{Name: ws.Name, Baseline: map[string][]shiftDiag{}, ByCode: map[string]int{}, EditsByKind: map[string]int{}}
+	for n, t := range ws.Files {
+		if !strings.Contains(t, "#") {
+			res.CommentFree = append(res.CommentFree, n)
+		}
+	}
+	sort.Strings(res.CommentFree)
 	fail := func(name string, k int, err error) {
 		res.Issues = append(res.Issues, shiftIssue{Kind: "error", File: name, K: k, Err: err.Error(), Files: ws.Files, Config: ws.Config})
 	}
@@ -436,9 +525,27 @@ func shiftRunWS(ctx context.Context, ws shiftWS) shiftResult {
 	seen := map[string]bool{}
 	minimised := 0
 	for _, name := range edit {
-		// one session: the edits follow each other on the same cache; the last one restores the original text
-		for _, k := range append(append([]int{}, ws.Ks...), 0) {
-			skip, err := s.shiftEdit(ctx, name, strings.Repeat("\n", k)+ws.Files[name])
+		// one session: the edits follow each other on the same cache (each one replaces the ORIGINAL text by a variant that
+		// differs in layout only); the last one restores the original text
+		var specs []shiftEditSpec
+		for _, k := range ws.Ks {
+			specs = append(specs, shiftEditSpec{Kind: "top", K: k})
+		}
+		for ci, row := range ws.Cuts[name] {
+			for ki, k := range ws.MidKs {
+				// quick: the k values rotate over the cuts; MidCross: every k at every cut
+				if ws.MidCross || ki == ci%len(ws.MidKs) {
+					specs = append(specs, shiftEditSpec{Kind: "mid", Row: row, K: k})
+				}
+			}
+		}
+		for _, k := range ws.TailKs {
+			specs = append(specs, shiftEditSpec{Kind: "tail", K: k})
+		}
+		specs = append(specs, shiftEditSpec{Kind: "top", K: 0})
+		for _, e := range specs {
+			k := e.K
+			skip, err := s.shiftEdit(ctx, name, e.apply(ws.Files[name]))
 			if err != nil {
 				fail(name, k, err)
 				return res
@@ -447,13 +554,14 @@ func shiftRunWS(ctx context.Context, ws shiftWS) shiftResult {
 				continue
 			}
 			res.Edits++
+			res.EditsByKind[e.Kind]++
 			res.Compared += len(res.Baseline[name])
-			for _, is := range shiftCompare(s, ws.Files, res.Baseline, name, k) {
+			for _, is := range shiftCompare(s, ws.Files, res.Baseline, name, e) {
 				code := ""
 				if is.Diag != nil {
 					code = is.Diag.Code
 				}
-				sig := is.Kind + "|" + code
+				sig := is.Kind + "|" + code + "|" + e.Kind
 				if seen[sig] {
 					continue
 				}
